@@ -287,3 +287,22 @@ def check_tapered(case, rec):
 
 
 SUBS.append(Sub("tapered", check_tapered, enum=enum_tapered, doc="patch tests on frusta meshed with wedges / bricks"))
+
+
+# (added by the lead) every beam family on a graded member, bending about both local axes, in both theories: the constant
+# curvature patch test on unequal element lengths (a shear term that is not reduced cancels on equal lengths only)
+
+
+def enum_beam_graded(tier):
+    for dim in (2, 3):
+        for et in ("SEG2", "SEG3", "SEG4", "SEG5"):
+            for tim in (False, True):
+                for grade in (-0.5, 0.4):
+                    for d in ([2.0, 0.0, 0.0], [-2.0, 0.0, 0.0], [1.0, 2.0, 0.0] if dim == 2 else [1.0, -1.0, 2.0]):
+                        spec = dict(dim=dim, elemType=et, p1=[0.5, 0.0, 0.0], d=d, ne=3, b=0.3, h=0.5, E=80.0, v=0.3, timoshenko=tim,
+                                    yAxis=None, grade=grade)
+                        yield dict(member=spec, a=0.02, k1=0.04, k2=-0.06 if dim == 3 else 0.0, tw=0.04 if dim == 3 else 0.0)
+
+
+SUBS.append(Sub("beam_graded", check_beam, enum=enum_beam_graded,
+                doc="dimension x SEG2..SEG5 x Euler-Bernoulli / Timoshenko x grading x direction (on the x axis both ways, inclined): constant strain / curvature / twist fields"))
